@@ -159,13 +159,23 @@ where
             continue;
         }
         match guard(|| wb.worksheet_range(&s.name)) {
-            Ok(Ok(r)) => match r.get_value((0, 0)) {
-                Some(Data::DateTime(d)) if *d == calamine::ExcelDateTime::new(44197.0, calamine::ExcelDateTimeType::DateTime, case.date1904) => {}
-                other => {
-                    rep.fail(format!("{fmt}: sheet {i} {:?}: the date cell reads {other:?}, expected a DateTime with is_1904={}", s.name, case.date1904));
-                    return;
+            Ok(Ok(r)) => {
+                // one date-styled cell per way of storing a number: constant, RK, MULRK run, cached formula result
+                let want = match fmt {
+                    "xlsx" => 2,
+                    "xlsb" => 3,
+                    _ => 5,
+                };
+                for c in 0..want {
+                    match r.get_value((0, c)) {
+                        Some(Data::DateTime(d)) if *d == calamine::ExcelDateTime::new(44197.0, calamine::ExcelDateTimeType::DateTime, case.date1904) => {}
+                        other => {
+                            rep.fail(format!("{fmt}: sheet {i} {:?}: the date cell in column {c} reads {other:?}, expected a DateTime with is_1904={}", s.name, case.date1904));
+                            return;
+                        }
+                    }
                 }
-            },
+            }
             other => {
                 rep.fail(format!("{fmt}: worksheet_range({:?}): {:?}", s.name, other.map(|r| r.map(|_| ()))));
                 return;
@@ -175,7 +185,10 @@ where
 }
 
 fn xlsx_doc(case: &Case) -> (xx::XlsxDoc, Vec<(String, String)>) {
-    let date_cell = || vec![xx::XRow { r: 0, explicit: true, attrs: false, cells: vec![xx::XCell { col: 0, explicit: true, style: Some(1), value: xx::XVal::Num { lex: "44197".into(), typed: false }, formula: None }] }];
+    let date_cell = || vec![xx::XRow { r: 0, explicit: true, attrs: false, cells: vec![
+        xx::XCell { col: 0, explicit: true, style: Some(1), value: xx::XVal::Num { lex: "44197".into(), typed: false }, formula: None },
+        xx::XCell { col: 1, explicit: true, style: Some(1), value: xx::XVal::Num { lex: "44197".into(), typed: true }, formula: Some(xx::XFormula::Plain("A1+0".into())) },
+    ] }];
     let sheets = case
         .sheets
         .iter()
@@ -280,7 +293,11 @@ fn oracle(case: &Case) -> Report {
                 name: s.name.clone(),
                 state: s.state,
                 kind: if s.kind == 4 { 0 } else { s.kind },
-                rows: vec![bb::BbRow { r: 0, before: vec![], cells: vec![bb::BbCell { col: 0, style: 1, rec: bb::BbRec::Real(44197.0) }] }],
+                rows: vec![bb::BbRow { r: 0, before: vec![], cells: vec![
+                    bb::BbCell { col: 0, style: 1, rec: bb::BbRec::Real(44197.0) },
+                    bb::BbCell { col: 1, style: 1, rec: bb::BbRec::Rk((44197 << 2) | 2) },
+                    bb::BbCell { col: 2, style: 1, rec: bb::BbRec::FmlaNum(44197.0, vec![0x1E, 1, 0]) },
+                ] }],
                 ..Default::default()
             })
             .collect(),
@@ -315,7 +332,12 @@ fn oracle(case: &Case) -> Report {
                     3 => 1,
                     _ => 6,
                 },
-                cells: vec![b8::BCell { row: 0, col: 0, ixfe: 1, rec: b8::BRec::Number(44197.0) }],
+                cells: vec![
+                    b8::BCell { row: 0, col: 0, ixfe: 1, rec: b8::BRec::Number(44197.0) },
+                    b8::BCell { row: 0, col: 1, ixfe: 1, rec: b8::BRec::Rk((44197 << 2) | 2) },
+                    b8::BCell { row: 0, col: 2, ixfe: 1, rec: b8::BRec::MulRk(vec![(1, (44197 << 2) | 2), (1, (4419700 << 2) | 3)]) },
+                    b8::BCell { row: 0, col: 4, ixfe: 1, rec: b8::BRec::Formula { value: b8::FVal::Num(44197.0), rgce: vec![0x1E, 1, 0] } },
+                ],
                 dimensions: 1,
                 ..Default::default()
             })
